@@ -288,7 +288,7 @@ def create(
     eq = _eventual_queue or EventualQueue(reactor)
     cooperator = Cooperator(scheduler=eq.eventually)
 
-    if delegate:
+    if delegate is not None:  # (it may well be a false-y object)
         w = _DelegatedWormhole(delegate)
     else:
         w = _DeferredWormhole(reactor, eq, _enable_dilate=bool(dilation))
